@@ -107,3 +107,61 @@ def analyse_recycle(mir_text):
         res, dt = query(f, b.n, CONTAINS)
         out.append({"function": f.name, "block": b.n, "res": res, "witness": wres, "dt": dt})
     return out
+
+
+# E3q (part of C17): delivering an interrupt does not clear the request.
+# The interpreter's poll `VmCore::safepoint_or_interrupt` reads the controller's state; in the `Interrupted` arm it raises the
+# error.  If that arm (or anything it calls directly) also WRITES the controller -- `ThreadStateController::resume`, a store to
+# the state cell or to the `paused` flag -- the request is one-shot: a script that catches the error in a handler and carries
+# on is never stopped.  Only the host's `resume()` may clear it.
+CTRL_WRITE = re.compile(r"(ThreadStateController::(resume|suspend|pause_for_safepoint)|AtomicCell::<(?:steel_vm::vm::|vm::)?ThreadState>::store|Atomic::<bool>::store)$")
+
+
+def analyse_poll(mir_text, variants=("Running", "Interrupted", "Suspended", "PausedAtSafepoint")):
+    funcs = mir.parse(mir_text, lambda n: n.endswith("::safepoint_or_interrupt"))
+    f = None
+    for g in funcs.values():
+        if "VmCore" in g.args_s:
+            f = g
+    if f is None:
+        raise ValueError("VmCore::safepoint_or_interrupt not found in the MIR dump")
+    arm = None
+    for b in f.blocks.values():
+        t = b.term
+        if b.cleanup or t.get("kind") != "switch":
+            continue
+        o = mir.origin(f, t["on"])
+        if "discriminant(" in o and "ThreadState" in o and "::load" in o:
+            arm = dict(t["targets"]).get(variants.index("Interrupted"))
+    if arm is None:
+        raise ValueError("no switch on the loaded ThreadState with an arm for Interrupted")
+    blocks = [b for b in f.blocks.values() if not b.cleanup]
+    ids = {b.n for b in blocks}
+    preds = {b.n: [] for b in blocks}
+    writes = []
+    for b in blocks:
+        t = b.term
+        if t.get("kind") == "call" and CTRL_WRITE.search(re.sub(r"\s+", "", t["callee"].strip()).replace("crossbeam_utils::atomic::", "")):
+            writes.append(b.n)
+        for s in _succ(t):
+            if s in ids:
+                preds[s].append(b.n)
+    q = ["(set-logic QF_BV)"]
+    for b in blocks:
+        q.append("(declare-const r%d Bool)(declare-const k%d (_ BitVec 16))" % (b.n, b.n))
+    q.append("(assert r%d)" % arm)
+    for b in blocks:
+        if b.n == arm:
+            continue
+        alts = ["(and r%d (bvult k%d k%d))" % (p, p, b.n) for p in preds[b.n]]
+        q.append("(assert (=> r%d (or false %s)))" % (b.n, " ".join(alts)))
+    t0 = time.time()
+    # vacuity witness: the arm reaches a return
+    rets = [b.n for b in blocks if b.term["kind"] == "return"]
+    p = subprocess.run(["z3", "-in", "-T:30"], input="\n".join(q + ["(assert (or false %s))" % " ".join("r%d" % n for n in rets), "(check-sat)"]) + "\n", capture_output=True, text=True)
+    wit = p.stdout.strip().split("\n")[0] if p.stdout.strip() else "error"
+    p = subprocess.run(["z3", "-in", "-T:30"], input="\n".join(q + ["(assert (or false %s))" % " ".join("r%d" % n for n in writes), "(check-sat)"]) + "\n", capture_output=True, text=True)
+    res = p.stdout.strip().split("\n")[0] if p.stdout.strip() else "error"
+    if "(error" in p.stdout or res not in ("sat", "unsat"):
+        res = "error"
+    return {"res": res, "witness": wit, "arm": arm, "controller_writes_in_poll": writes, "dt": time.time() - t0}
